@@ -89,9 +89,24 @@ func checkEncode(c encCase) (h.Info, error) {
 	if got != want {
 		return info, fmt.Errorf("Encode(%q, %x) = %q, BIP-173 reference %q", hrp, data, got, want)
 	}
+	// the result must not depend on what follows the slice in memory (spare capacity with garbage)
+	big := append(append(make([]byte, 0, len(data)+40), data...), bytes.Repeat([]byte{0xff}, 40)...)
+	if got2, err2 := bech32.Encode(hrp, big[:len(data)]); err2 != nil || got2 != got {
+		return info, fmt.Errorf("Encode(%q, %x) gives %q, %v when the data slice has spare capacity holding other bytes", hrp, data, got2, err2)
+	}
+	if !bytes.Equal(big[:len(data)], data) || !bytes.Equal(big[len(data):], bytes.Repeat([]byte{0xff}, 40)) {
+		return info, fmt.Errorf("Encode wrote into its input slice or beyond it")
+	}
 	dh, dd, err := bech32.Decode(got)
 	if err != nil || dh != ref.AsciiLower(hrp) || !bytes.Equal(dd, data) {
 		return info, fmt.Errorf("Decode(Encode(%q, %x)) = (%q, %x, %v)", hrp, data, dh, dd, err)
+	}
+	// decoding twice gives independent results (no shared buffers between calls)
+	for i := range dd {
+		dd[i] ^= 0xff
+	}
+	if _, dd2, err := bech32.Decode(got); err != nil || !bytes.Equal(dd2, data) {
+		return info, fmt.Errorf("second Decode(%q) = %x, %v after the first result was overwritten", got, dd2, err)
 	}
 	// independent reading of the produced string
 	if r := ref.Decode(got); !r.OK || r.HRP != ref.AsciiLower(hrp) || !bytes.Equal(r.Data, data) {
